@@ -114,7 +114,25 @@ def eval_case(item):
     return out
 
 
+def _thorough_grid():
+    """every 2^k + d for k <= 64, d in -1..1 that the type can hold; floats: the same magnitudes, both signs"""
+    ints, nats, floats = set(GRID["int"]), set(GRID["nat"]), set(GRID["float"])
+    for k in range(0, 65):
+        for d in (-1, 0, 1):
+            v = (1 << k) + d
+            if 0 <= v < P64:
+                nats.add(v)
+            for w in (v, -v):
+                if -P63 <= w < P63:
+                    ints.add(w)
+            floats.update((float(v), -float(v), float(v) + 0.5))
+    floats.update((1e-300, -1e-300, 5e-324, 1.7976931348623157e308))
+    return {"int": sorted(ints), "nat": sorted(nats), "float": sorted(floats)}
+
+
 def run(ctx):
+    if not ctx.quick:
+        GRID.update(_thorough_grid())          # inherited by the forked workers
     items = [(p, a, e) for p in POSITIONS for a in ORDER for e in ORDER]
     res = ctx.pmap(eval_case, items, chunk=4)
     evals = nontriv = rej_ok = rej_open = acc = 0
